@@ -1,3 +1,4 @@
+import Mp.JsonProofs
 import Mp.ProofsSim
 import Mp.ProofsSim2
 import Mp.ProofsL3
@@ -9,3 +10,6 @@ import Mp.ProofsL3
 #print axioms Mp.objectAsMap_ptr_struct
 #print axioms Mp.objectAsMap_ptr_map
 #print axioms Mp.object_receiver_carrier_independent
+#print axioms Mp.GoJson.pValue_render
+#print axioms Mp.GoJson.parse_render
+#print axioms Mp.GoJson.unmarshal_render_object
